@@ -1,9 +1,101 @@
-(** C05 — property theorems (statements only; proofs by [exact]). *)
+(** C05 — property theorems (statements only; proofs by [exact]).
+
+    Vocabulary (C05.Spec): [reach n es s] — the DSU value [s] is produced by some history of calls
+    (new, un, par, check, size, reset), [n] is its current element count and [es] the union requests
+    made since the last reset; [conn es] — the equivalence closure of [es]; [class_card n es v k] —
+    [k] elements below [n] are connected to [v]; [chain pa v r k] — following the parent array [pa]
+    from [v] takes [k] steps to the root [r]; [par_val s v] — the value [par] returns.  Clones are
+    plain copies: every live copy of a multi-copy history is itself [reach]able
+    ([c05_clone_copies_reachable]), so all statements apply to each copy. *)
 From Coq Require Import List Arith Bool.
-From RlibV Require Import C05.Model C05.Spec C05.Proofs.
+From RlibV Require Import C05.Model C05.Spec C05.Proofs C05.ProofsInv C05.ProofsMain C05.Corr C05.ProofsCorr.
 Import ListNotations.
 
 (** reset, written as the code does it (resize, then two loops of checked writes), yields exactly the state
     built by [new]: nothing of the previous history survives, whether the reset grows or shrinks *)
 Theorem c05_reset_is_new : forall (s : dsu) (n : nat), reset s n = Ok (new n).
 Proof. exact reset_is_new. Qed.
+
+(** the invariant (ghost rank and representative function, see [Ghost]) holds initially and every call
+    that returns preserves it *)
+Theorem c05_inv_preserved :
+  (forall n, Inv n [] (new n)) /\
+  (forall n es s o s' r, Inv n es s -> step s o = Ok (s', r) -> Inv (ghost_n n o) (ghost_es es o) s').
+Proof. exact inv_preserved. Qed.
+
+Theorem c05_reach_inv : forall n es s, reach n es s -> Inv n es s.
+Proof. exact reach_inv. Qed.
+
+(** histories as lists of calls: what a history that does not panic produces is [reach]able, with the
+    element count and the union requests since the last reset computed by [ghost_run]; so every statement
+    below holds after every finite history of un / par / check / size / reset *)
+Theorem c05_history_reach : forall n0 ops s rs, run (new n0) ops = Ok (s, rs) ->
+  reach (fst (ghost_run n0 [] ops)) (snd (ghost_run n0 [] ops)) s.
+Proof. exact history_reach. Qed.
+
+(** no history runs out of fuel *)
+Theorem c05_history_no_fuel : forall n0 ops, run (new n0) ops <> Fuel.
+Proof. exact history_no_fuel. Qed.
+
+(** the model's recursion fuel never runs out *)
+Theorem c05_no_fuel_exhaustion : forall n es s o, reach n es s -> step s o <> Fuel.
+Proof. exact no_fuel_exhaustion. Qed.
+
+(** a call panics exactly when one of its indices is out of range *)
+Theorem c05_panic_iff_out_of_range : forall n es s o,
+  reach n es s -> (step s o = Panic <-> in_range n o = false).
+Proof. exact panic_iff_out_of_range. Qed.
+
+(** check u v <=> (u, v) in the equivalence closure of the unions since the last reset *)
+Theorem c05_partition : forall n es s u v, reach n es s -> u < n -> v < n ->
+  exists s' b, step s (Check u v) = Ok (s', RB b) /\ (b = true <-> conn es u v).
+Proof. exact partition. Qed.
+
+(** un returns true <=> its arguments were in different classes *)
+Theorem c05_un_true_iff_joined : forall n es s u v, reach n es s -> u < n -> v < n ->
+  exists s' b, step s (Un u v) = Ok (s', RB b) /\ (b = true <-> ~ conn es u v).
+Proof. exact un_true_iff_joined. Qed.
+
+(** size v = number of elements connected to v *)
+Theorem c05_size_is_cardinality : forall n es s v, reach n es s -> v < n ->
+  exists s' k, step s (Size v) = Ok (s', RN k) /\ class_card n es v k.
+Proof. exact size_is_cardinality. Qed.
+
+Theorem c05_class_card_unique : forall n es v k k',
+  class_card n es v k -> class_card n es v k' -> k = k'.
+Proof. exact class_card_unique. Qed.
+
+(** par v is a member of v's class, the same for all members and only for them, and no lookup changes it *)
+Theorem c05_par_representative : forall n es s, reach n es s ->
+  (forall v, v < n -> exists r, par_val s v = Some r /\ r < n /\ conn es v r) /\
+  (forall u v, u < n -> v < n -> (conn es u v <-> par_val s u = par_val s v)) /\
+  (forall o s' x, is_lookup o = true -> step s o = Ok (s', x) ->
+     forall v, v < n -> par_val s' v = par_val s v).
+Proof. exact par_representative. Qed.
+
+(** in every reachable state every element has a parent chain to a root; the root's recorded size is the
+    cardinality c of the class; every parent chain from v ends in that root and its length k' satisfies
+    2^k' <= c, i.e. k' <= log2 c *)
+Theorem c05_depth_log : forall n es s v, reach n es s -> v < n ->
+  exists r k c,
+    chain (p s) v r k /\ class_card n es v c /\ nth r (sz s) 0 = c /\
+    (forall r' k', chain (p s) v r' k' -> r' = r /\ 2 ^ k' <= c /\ k' <= Nat.log2 c).
+Proof. exact depth_log. Qed.
+
+(** the recursion of par is no deeper than log2 (class size) + 1 frames: with that much fuel the model's
+    find already returns, and returns what it returns with the full fuel *)
+Theorem c05_stack_depth : forall n es s v c, reach n es s -> v < n -> class_card n es v c ->
+  par_rec (S (Nat.log2 c)) (p s) v = par_rec (par_fuel (p s)) (p s) v /\
+  exists x, par_rec (S (Nat.log2 c)) (p s) v = Ok x.
+Proof. exact stack_depth. Qed.
+
+(** clones: every live copy of a multi-copy history is a reachable single value *)
+Theorem c05_clone_copies_reachable : forall cs,
+  mreach cs -> Forall (fun s => exists n es, reach n es s) cs.
+Proof. exact mreach_copies. Qed.
+
+(** correspondence cases (C05.Corr): whenever the implementation's observations equal the model's
+    ([model_check]), they satisfy the model-independent specification ([spec_check]: naive partition replay,
+    representative constraints, forest shape, depth <= log2 class size) *)
+Theorem c05_model_check_implies_spec_check : forall c : case, model_check c = true -> spec_check c = true.
+Proof. exact model_check_spec_check. Qed.
